@@ -420,6 +420,12 @@ func c13Pipes() []c13Pipe {
 		{"empty string arg", `s | default('') | upper`, "HELLO", ""}, {"empty string arg used", `e | default("") | strict`, "<>", ""},
 		{"quoted digits stay text", `e | default("007") | strict`, "<007>", ""}, {"quoted boolean stays text", `e | default("true") | strict`, "<true>", ""},
 		{"quoted arg with comma", `e | default("a, b") | upper`, "A, B", ""}, {"unquoted arg is the variable", `e | default(s)`, "hello", ""},
+		// the other kind of quote inside a string literal is an ordinary character of it (text position only: the attribute positions have their own quoting)
+		{"textonly: apostrophe and comma inside a double-quoted literal", `e | default("it's, you")`, "it's, you", ""},
+		{"textonly: double quote and comma inside a single-quoted literal", `e | default('5", wide') | upper`, `5", WIDE`, ""},
+		{"textonly: apostrophe in the first of two literals", `s | joinall("it's", "b")`, "it'shellob", ""},
+		{"textonly: apostrophe in the first of three literals", `s | joinall("it's", "a", "b")`, "it'shelloahellob", ""},
+		{"textonly: two apostrophes and a comma", `e | default("rock'n'roll, baby")`, "rock'n'roll, baby", ""},
 		{"unknown function", "s | nosuch", "", "nosuch"}, {"unknown in chain", "s | upper | nosuch2 | lower", "", "nosuch2"}, {"too many args", "n | double(1)", "", "double"}, {"too few args", "n | add", "", "add"},
 		{"impossible conversion", "lst | double", "", "double"}, {"non numeric string", "s | double", "", "double"}, {"function error", "s | fail", "", "fail"}, {"function error text", "s | fail", "", "boom-hello"},
 		{"direct unknown", "nosuch3(n)", "", "nosuch3"},
@@ -537,6 +543,9 @@ func runC13(r *Run, replay *Case) {
 	}
 	for _, p := range c13Pipes() {
 		for _, pos := range []string{"text", "attr", "if", "show"} {
+			if pos != "text" && strings.HasPrefix(p.desc, "textonly:") {
+				continue
+			}
 			r.Add(c13PipeCase(p, pos))
 		}
 	}
@@ -544,7 +553,7 @@ func runC13(r *Run, replay *Case) {
 	c13TypeAlternation(r)
 	// built-in-only pipe chains: real engine vs the Lean pipe interpreter (parsePipeExpr / evalPipe / callBuiltin), byte for byte
 	heads := []string{"s", "t", "e", "n", "lst", "obj.k", "st.Y", "missing", "'lit'", "upper(s)", "len(lst)", "digits"}
-	segs := []string{"upper", "lower", "trim", "len", "string", "escape", "default('d')", "default(t)", "default(missing)", "default('')", "default(\"s\")", "default('t')", "default(\"a, b\")", "nosuch", "upper(1)", "default", "upper()"}
+	segs := []string{"upper", "lower", "trim", "len", "string", "escape", "default('d')", "default(t)", "default(missing)", "default('')", "default(\"s\")", "default('t')", "default(\"a, b\")", "default(\"it's, x\")", "default('5\", w') | upper", "nosuch", "upper(1)", "default", "upper()"}
 	np := 250
 	if r.Thorough() {
 		np = 4000
